@@ -59,6 +59,57 @@ impl C07 {
             }
             _ => out.count("c07.raw_layout_unrecognised"),
         }
+        // single pages asked with arbitrary (start_from, limit): every returned entry is the stored one, ids ascend
+        // without gaps, the page starts at the first stored entry at / after the requested start (an inclusive or an
+        // exclusive reading of `start_from` is accepted, skipping an entry is not) and is never longer than asked
+        {
+            let reference: &Vec<crate::snap::Hist> = match &c.post.raw_history {
+                Some(raw) if !(raw.is_empty() && !c.post.history.is_empty()) => raw,
+                _ => &c.post.history,
+            };
+            for (s, l, got) in c.post.history_probes.iter() {
+                out.count("c07.history_pages_probed");
+                let mut bad: Option<String> = None;
+                for (i, g) in got.iter().enumerate() {
+                    match reference.iter().position(|r| r.batch_id == g.batch_id) {
+                        None => bad = Some(format!("returns batch {} which is not stored", g.batch_id)),
+                        Some(p) => {
+                            if &reference[p] != g {
+                                bad = Some(format!("batch {} differs from the stored entry", g.batch_id));
+                            }
+                            if i + 1 < got.len() && reference.get(p + 1).map(|r| r.batch_id) != Some(got[i + 1].batch_id) {
+                                bad = Some(format!("batch {} is not followed by the next stored batch", g.batch_id));
+                            }
+                        }
+                    }
+                }
+                if let Some(n) = l {
+                    if got.len() > (*n).max(1) as usize {
+                        bad = Some(format!("{} entries for limit {}", got.len(), n));
+                    }
+                }
+                let from = s.unwrap_or(0);
+                let next_after = reference.iter().map(|r| r.batch_id).filter(|b| *b > from || (s.is_none())).min();
+                match got.first() {
+                    None => {
+                        if let Some(nb) = next_after {
+                            bad = Some(format!("empty page although batch {} is stored after the requested start", nb));
+                        }
+                    }
+                    Some(g) => {
+                        let ok_first = Some(g.batch_id) == next_after || (s.is_some() && g.batch_id == from);
+                        if !ok_first {
+                            bad = Some(format!("page starts at batch {} but the first stored batch after the requested start is {:?}", g.batch_id, next_after));
+                        }
+                    }
+                }
+                if let Some(b) = bad {
+                    out.violation(P, "queries_faithful", format!("AllHistory{{start_from: {:?}, limit: {:?}}} {} (returned ids {:?}, stored ids {:?})", s, l, b, got.iter().map(|g| g.batch_id).collect::<Vec<_>>(), reference.iter().map(|r| r.batch_id).collect::<Vec<_>>()));
+                    return;
+                }
+                out.distinct(&("history_page", s.map(|x| (x as usize).min(reference.len() + 2)), *l, got.len().min(12)));
+            }
+        }
         match &c.post.raw_requests {
             Some(raw) if !(raw.is_empty() && !q.is_empty()) => {
                 out.count("c07.requests_checked_against_storage");
